@@ -177,6 +177,10 @@ def case_list(nbase, step):
             cases.append(('deep', 'units', style, k))
         for k in range(0, 4096, 64 if nbase <= 3 else 8):
             cases.append(('deep', 'long-items', style, k))
+        # a text field larger than twice the scan buffer made of supplementary-plane characters: wherever the buffer
+        # runs full, a surrogate pair is about to be split between two fills
+        for k in (range(0, 48) if nbase <= 3 else range(0, 512)):
+            cases.append(('deep', 'astral-text', style, k))
     for start in ('\r', '\r\n', '\ufeff\r', '\ufeff\r\n', '\n', '\r\r\n', '\ufeff\n', ' \r\n'):
         for style in ('lf', 'crlf', 'cr'):
             cases.append(('start', start, style, 0))
@@ -254,6 +258,14 @@ def deep_document(kind, pad):
                 k += 1
         out.append('_last_item done\n')
         items += 1
+    elif kind == 'astral-text':
+        out.append('_t\n;')
+        for j in range(3400):
+            # (mostly one-byte characters: a 4096-byte read then yields more code units than the nearly full buffer
+            # has room for, and the conversion stops wherever the room ends - one time in four on a lead surrogate)
+            out.append('ab\U0001f600' * (19 + j % 3) + ('x' if j % 5 == 0 else '') + '\n')
+        out.append(';\n_after 1\n')
+        items = 2
     else:
         for j in range(417):
             out.append("_L%03d '%s'\n" % (j, ('%03d ' % j) + 'v' * 606))
